@@ -20,6 +20,7 @@ The closed expressions (`gapOf`, `lHigh`, `keep`, `breakCond`, `pickLast`, const
 -/
 import FairModel.Model.Proto
 import FairModel.Generated.EGGen
+import FairModel.Generated.ProjectLambdaSrc
 
 namespace Saddle
 
@@ -36,15 +37,18 @@ def errQ (T : Table) (Q : Nat → Rat) : Rat := sumTo T.nH (fun i => Q i * T.err
 
 def gamQ (T : Table) (Q : Nat → Rat) (j : Nat) : Rat := sumTo T.nH (fun i => Q i * T.gam j i)
 
-def viol (T : Table) (Q : Nat → Rat) (j : Nat) : Rat := gamQ T Q j - T.c j
+/-- one entry of `gamma - self.constraints.bound()` (lifted: `EGGen.violOf`) -/
+def viol (T : Table) (Q : Nat → Rat) (j : Nat) : Rat := EGGen.violOf (gamQ T Q j) (T.c j)
 
+/-- `L = error + np.sum(lambda_vec * (gamma - self.constraints.bound()))`, computed with the lifted expressions
+    `EGGen.lagrOf` / `EGGen.lagrTerm`; `Lemmas/Saddle.lean:lagr_def` is the closed form the proofs use -/
 def lagr (T : Table) (Q lam : Nat → Rat) : Rat :=
-  errQ T Q + sumTo T.nC (fun j => lam j * viol T Q j)
+  EGGen.lagrOf (errQ T Q) (sumTo T.nC (fun j => EGGen.lagrTerm (lam j) (gamQ T Q j) (T.c j)))
 
 /-- `(gamma - bound).max()` (for `nC = 0` pandas gives NaN and `NaN > 0` is False; here the value is
     `viol 0` of out-of-range reads = 0, which takes the same branch of `lHigh`) -/
 def maxViol (T : Table) (Q : Nat → Rat) : Rat :=
-  (List.range T.nC).foldl (fun acc j => EGGen.max2 acc (viol T Q j)) (viol T Q 0)
+  (List.range T.nC).foldl (fun acc j => EGGen.violAgg acc (viol T Q j)) (viol T Q 0)
 
 def lHigh (T : Table) (B : Rat) (Q : Nat → Rat) : Rat := EGGen.lHigh (errQ T Q) B (maxViol T Q)
 
@@ -65,9 +69,10 @@ def trueGap (T : Table) (B : Rat) (Q lam : Nat → Rat) : Rat := gap T B Q lam (
 def posPart (q : Rat) : Rat := if q < 0 then 0 else q
 
 /-- `UtilityParity.project_lambda` for ratio = 1; entries `j < m` are the `+` multipliers, entries
-    `m ≤ j < 2m` the `-` multipliers of the same (event, group) pairs. -/
+    `m ≤ j < 2m` the `-` multipliers of the same (event, group) pairs.  The entry formulas are the lifted text of the
+    method (`Generated/ProjectLambdaSrc.lean`); `Lemmas/Saddle.lean:project_lo/_hi` relate them to `posPart`. -/
 def project (m : Nat) (lam : Nat → Rat) : Nat → Rat := fun j =>
-  if j < m then posPart (lam j - lam (j + m)) else posPart (lam j - lam (j - m))
+  if j < m then ProjectLambdaSrc.posOf (lam j) (lam (j + m)) else ProjectLambdaSrc.negOf (lam (j - m)) (lam j)
 
 def projectIf (ratioOne : Bool) (m : Nat) (lam : Nat → Rat) : Nat → Rat :=
   if ratioOne then project m lam else lam
